@@ -1,4 +1,4 @@
-import AaVerif.Aa.Wire
+import AaVerif.Aa.Meaning
 import AaVerif.Generated.AaTables
 /-!
 # C10 — merging rules never changes what the rules grant or deny
@@ -16,14 +16,39 @@ abbrev T := Generated.aaTables
 rules, merging two rules yields a rule that means their union (`MergeContract`) and a rule that
 compares equal to an earlier one adds no meaning (`DupContract`), then `Rules.Merge` preserves
 the meaning of every list over `D` — of any length, in any order, `nil` entries included.
-The per-kind contracts are validated on the real code by the search (meaning computed on the
-real output) and hold outside the known classes below; discharging them in Lean kind by kind
-is listed as open work in DESIGN.md. -/
+The two contracts are discharged below for the concrete meaning `Aa.den` (facts = kind,
+qualifier, subject, permission) on the domain `Aa.Dom10`. -/
 theorem C10_merge_preserves_meaning {Fact : Type} (den : Rule → Fact → Prop) (D : Rule → Prop)
     (hm : MergeContract T den D) (hd : DupContract T den D)
     (l : List (Option Rule)) (hdom : ∀ o ∈ l, DomO D o) (f : Fact) :
     Den den (mergeRules T l) f ↔ Den den l f :=
   mergeRules_den T den D hm hd l hdom f
+
+theorem alphabet_lower : ∀ c ∈ T.stringAlphabet, lowerC c = c := by decide +kernel
+
+/-- **C10, meaning preservation** (partial: on `Dom10`, i.e. outside the known classes). For every
+list — any length, any order, `nil` entries included — of rules of the 19 meaningful kinds whose
+strings are over the sort alphabet and whose permission lists are not empty, the set of
+(kind, qualifier, subject, permission) facts of `Rules.Merge`'s result equals that of the input:
+no access dropped, none widened, none moved between allow, deny and audit.
+Not covered (each with a proved witness below, replayed on the real code): upper-case letters and
+bytes outside the alphabet (`K_case`), empty permission lists (`K_emptyAccess`), the mount kinds
+(`K_mountOptions`). -/
+theorem C10_den_preserved_partial (l : List (Option Rule))
+    (hdom : ∀ o ∈ l, DomO (Dom10 T.stringAlphabet) o) (f : Fact) :
+    Den den (mergeRules T l) f ↔ Den den l f :=
+  mergeRules_meaning T alphabet_lower l hdom f
+
+/-- **Duplicates only when identical** (partial: on `Dom10`): a rule dropped by the duplicate test
+has the same kind, qualifier and fields as the rule it was compared with. -/
+theorem C10_dup_only_identical_partial {r o : Rule} (hr : Dom10 T.stringAlphabet r)
+    (ho : Dom10 T.stringAlphabet o) (hk : r.kind = o.kind) (hc : compareRule T r o = 0) :
+    r.audit = o.audit ∧ r.accessType = o.accessType ∧ r.flds = o.flds :=
+  compare_zero_identical T alphabet_lower hr ho hk hc
+
+/-- the per-rule contracts themselves, for reference -/
+theorem C10_merge_contract : MergeContract T den (Dom10 T.stringAlphabet) := mergeContract T alphabet_lower
+theorem C10_dup_contract : DupContract T den (Dom10 T.stringAlphabet) := dupContract T alphabet_lower
 
 /-- **Permission lists are united**: `merge(kind, key, a, b)` holds exactly the values of `a`
 and of `b`, for every kind and every weight table (so a changed table cannot lose a value). -/
@@ -72,6 +97,14 @@ theorem C10_signal_not_idempotent :
     let l := [some (signal ["send"] ["term"] ""), some (signal ["send", "receive"] ["kill", "term"] ""),
               some (signal ["receive"] ["term"] "")]
     mergeRules T (mergeRules T l) ≠ mergeRules T l := by
+  decide +kernel
+
+/-- the domain of `C10_den_preserved_partial` is inhabited by ordinary rules, and the theorem says
+something about them: the merged list of `/a r,` `/a w,` means both accesses -/
+example : Dom10 T.stringAlphabet (file "/a" ["r"]) ∧ Dom10 T.stringAlphabet (signal ["send"] ["term"] "foo") := by
+  refine ⟨⟨?_, ?_, ?_, ?_, ?_⟩, ⟨?_, ?_, ?_, ?_, ?_⟩⟩ <;> decide +kernel
+
+example : mergeRules T [some (file "/a" ["r"]), some (file "/a" ["w"])] = [some (file "/a" ["r", "w"])] := by
   decide +kernel
 
 end C10
